@@ -201,7 +201,7 @@ theorem authComputeAndVerify_eq (tag key msg : Bytes) :
   by_cases h : tag.length < 32 ∨ key.length < 32
   · rw [if_pos h, if_pos h]
   · rw [if_neg h, if_neg h]
-    unfold hmacVerify
+    rw [Proofs.Core.hmacVerify_eq_if]
     rw [Proofs.Core.hmac_eq_spec_le _ _ (by rw [take_length_of_le 32 key (by omega)]; omega)]
 
 theorem authComputeAndVerify_cases (tag key msg : Bytes) :
